@@ -426,6 +426,17 @@ impl Monitor for C08 {
                             let l_wrap = &lim128 / &n + BigUint::from(1u8);
                             let l_wrap2 = &l_wrap + (&d / &n) * BigUint::from(1000u32) + BigUint::from(7u8);
                             let mut cands: Vec<(&str, BigUint)> = vec![("over", l_over.clone()), ("fit", &l_over - BigUint::from(1u8)), ("wrap128", l_wrap), ("wrap128+", l_wrap2)];
+                            if !side_b {
+                                // liquidity at which an intermediate product of the token-A conversion (liquidity x price distance)
+                                // reaches 2^128 or 2^192: whatever the cost is there, it is charged exactly or refused
+                                let bot = if t < lo { pl } else { p };
+                                let w = model::bu(pu - bot);
+                                for (label, bits) in [("prod128", 128usize), ("prod192", 192usize)] {
+                                    let th = ((BigUint::from(1u8) << bits) + &w - BigUint::from(1u8)) / &w;
+                                    cands.push((label, th.clone()));
+                                    cands.push((label, &th + BigUint::from(1 + ev.salt % (1 << 20))));
+                                }
+                            }
                             if side_b {
                                 // liquidity whose token-B cost has a chosen fractional part (in 64ths of a bit: only the top bit,
                                 // only the lowest bit, all ones, the middle bit, none): L * n = pattern (mod 2^64)
@@ -542,6 +553,58 @@ impl Monitor for C08 {
                                     out.push(viol("position_liquidity_delta", ev.idx, format!("{} with liquidity amount {} succeeds: the position went {} -> {}, the vaults moved {} / {} (exact amounts for that liquidity: {} / {})", name, l, x.pre_pos.liquidity, q, va, vb, xa, xb)));
                                     break;
                                 }
+                            }
+                        }
+                    }
+                    // the same deposit on copies whose pool sits on a protocol price bound: the floor in its shifted-tick state (the
+                    // tick one below the lowest tick, as a swap down to the floor leaves it), the floor itself, the ceiling. The
+                    // position is then entirely on one side; with a funded owner and no maximum the deposit goes through and moves
+                    // exactly the one-sided cost (when that cost fits a u64)
+                    if inc && ev.salt % 7 == 3 && liq > 0 {
+                        for (p_b, t_b, label) in [(decode::MIN_SQRT_PRICE, decode::MIN_TICK - 1, "floor, shifted tick"), (decode::MIN_SQRT_PRICE, decode::MIN_TICK, "floor"), (decode::MAX_SQRT_PRICE, decode::MAX_TICK, "ceiling")] {
+                            let (xa, xb) = model::liquidity_amounts(liq, t_b, p_b, lo, hi, true);
+                            if model::to_u64(&xa).is_none() || model::to_u64(&xb).is_none() {
+                                continue;
+                            }
+                            let mut fork = v.pre.clone();
+                            let Some(pa) = fork.get(&x.pool_key).cloned() else { break };
+                            let mut pd = (*pa.data).clone();
+                            pd[65..81].copy_from_slice(&p_b.to_le_bytes());
+                            pd[81..85].copy_from_slice(&t_b.to_le_bytes());
+                            // nothing is in range at a bound
+                            pd[49..65].copy_from_slice(&0u128.to_le_bytes());
+                            fork.put(x.pool_key, rt::Account { lamports: pa.lamports, data: std::rc::Rc::new(pd), owner: pa.owner, executable: false });
+                            let mut seen: Vec<Pubkey> = Vec::new();
+                            let mut usable = true;
+                            for (k, amt) in [(c.a("token_owner_account_a"), u64::MAX), (c.a("token_owner_account_b"), u64::MAX), (x.pre_pool.vault_a, 0u64), (x.pre_pool.vault_b, 0u64)] {
+                                let Some(a) = fork.get(&k).cloned() else { usable = false; break };
+                                if seen.contains(&k) || a.data.len() < 72 {
+                                    usable = false;
+                                    break;
+                                }
+                                seen.push(k);
+                                let mut dd = (*a.data).clone();
+                                dd[64..72].copy_from_slice(&amt.to_le_bytes());
+                                fork.put(k, rt::Account { lamports: a.lamports, data: std::rc::Rc::new(dd), owner: a.owner, executable: false });
+                            }
+                            if !usable {
+                                break;
+                            }
+                            let mut ix2 = v.ix.clone();
+                            ix2.data[24..32].copy_from_slice(&u64::MAX.to_le_bytes());
+                            ix2.data[32..40].copy_from_slice(&u64::MAX.to_le_bytes());
+                            let start = fork.clone();
+                            let r = rt::exec_tx_simple(&mut fork, &Tx { ixs: vec![ix2] });
+                            cov.probe("deposits_with_the_pool_on_a_price_bound");
+                            cov.eval(format!("price_bound|{}|{}|ok={}", name, label, r.ok));
+                            let (va, vb) = (delta(&start, &fork, &x.pre_pool.vault_a), delta(&start, &fork, &x.pre_pool.vault_b));
+                            if !r.ok {
+                                out.push(viol("refused_on_a_price_bound", ev.idx, format!("{} L={} on {}..{} is refused ({:?}) on a copy whose pool sits on the {} (price {} tick {}), although it costs {} / {} there and the owner is funded", name, liq, lo, hi, r.custom(), label, p_b, t_b, xa, xb)));
+                                break;
+                            }
+                            if BigUint::from(va.max(0) as u128) != xa || BigUint::from(vb.max(0) as u128) != xb {
+                                out.push(viol("token_amounts", ev.idx, format!("{} L={} on {}..{} with the pool on the {} (price {} tick {}) moved {} / {} into the vaults but costs {} / {}", name, liq, lo, hi, label, p_b, t_b, va, vb, xa, xb)));
+                                break;
                             }
                         }
                     }
